@@ -73,8 +73,8 @@ def granted_streams(ctx):
     rng = ctx.rng
     T = 10 ** 7
     ops = []
-    for _ in range(4 if ctx.quick else 25):
-        th = rng.choice((2, 3, 4, 5, 7))
+    for _ in range(3 if ctx.quick else 25):
+        th = rng.choice((2, 3, 4) if ctx.quick else (2, 3, 4, 5, 7))     # quick: tables up to 4.5e7 (model time ~ 8 s per table)
         z = rng.randint(th * T - T + 1, th * T + T // 2)
         ops.append("ftdhash %d %d %d %d" % (rng.randint(1000, 10 ** 6), z, th + rng.choice((0, 1, 9)), rng.choice((16, 32))))
         ops.append("fthash %d %d 32" % (rng.randint(th * T - T + 1, th * T + T // 2), th + rng.choice((0, 3))))
